@@ -1,21 +1,41 @@
 import EqsigVerif.Model.TimeStep
 import EqsigVerif.Gen.TimeStepFactor
+import Mathlib.Tactic.Ring
+import Mathlib.Tactic.NormNum
+import Mathlib.Tactic.Linarith
+import Mathlib.Tactic.SplitIfs
+import Mathlib.Algebra.Order.Ring.Rat
 /-!
 # C14.a — translator tie: the factor rule REGENERATED from `eqsig/fns/time_step.py` is the model's `factorRule`
 
-Both `interp_array_to_approx_dt` and `resample_to_approx_dt` contain the rule; each is translated separately.
+Both `interp_array_to_approx_dt` and `resample_to_approx_dt` contain the rule; each is translated separately. The bridges are
+proved semantically (first `rfl`; otherwise case analysis on the branch conditions), so a harmless reordering of the branches
+does not break them while any change of the rule's value does.
 -/
 namespace EqsigVerif.Props.C14
 open EqsigVerif
 
+macro "rule_bridge" : tactic =>
+  `(tactic| first
+    | rfl
+    | (simp only [Gen.TimeStepFactor.factorRuleInterp, Gen.TimeStepFactor.factorRuleResample, Model.TimeStep.factorRule] <;>
+       split_ifs <;> first
+        | rfl
+        | (exfalso; norm_num at * <;> linarith)
+        | (subst_vars; norm_num; done)
+        | (simp_all; done)))
+
 /-- the generated rule of `interp_array_to_approx_dt` is the model's factor rule -/
-theorem gen_factor_rule_interp (q : Rat) : Gen.TimeStepFactor.factorRuleInterp q = Model.TimeStep.factorRule q := rfl
+theorem gen_factor_rule_interp (q : Rat) : Gen.TimeStepFactor.factorRuleInterp q = Model.TimeStep.factorRule q := by
+  rule_bridge
 
 /-- the generated rule of `resample_to_approx_dt` is the model's factor rule ("follows the same step rule") -/
-theorem gen_factor_rule_resample (q : Rat) : Gen.TimeStepFactor.factorRuleResample q = Model.TimeStep.factorRule q := rfl
+theorem gen_factor_rule_resample (q : Rat) : Gen.TimeStepFactor.factorRuleResample q = Model.TimeStep.factorRule q := by
+  rule_bridge
 
 /-- the two functions apply the same rule -/
-theorem gen_factor_rules_agree (q : Rat) : Gen.TimeStepFactor.factorRuleInterp q = Gen.TimeStepFactor.factorRuleResample q := rfl
+theorem gen_factor_rules_agree (q : Rat) : Gen.TimeStepFactor.factorRuleInterp q = Gen.TimeStepFactor.factorRuleResample q := by
+  rw [gen_factor_rule_interp, gen_factor_rule_resample]
 
 example : Gen.TimeStepFactor.factorRuleInterp (7/2) = 4 ∧ Gen.TimeStepFactor.factorRuleInterp (2/7) = 1/3 := by decide +kernel
 
